@@ -14,8 +14,26 @@ use std::hash::{Hash, Hasher};
 use std::time::Instant;
 
 thread_local! {
+    static LAST_PANIC: RefCell<String> = RefCell::new(String::new());
     static INPUT: RefCell<(Vec<Fr>, StdRng)> = RefCell::new((vec![], StdRng::seed_from_u64(0)));
     static DISCARD: RefCell<Option<String>> = RefCell::new(None);
+}
+
+/// Silence panic output and remember the source file of the last panic (line numbers are not part
+/// of finding keys: they move with unrelated edits).
+pub fn install_panic_hook() {
+    std::panic::set_hook(Box::new(|info| {
+        let file = info.location().map(|l| l.file().to_string()).unwrap_or_default();
+        let short = file.rsplit("/src/").next().unwrap_or(&file).to_string();
+        let krate = if file.contains("poly-commit/src") { "poly-commit/src/" } else if file.contains("sympc/src") { "sympc/src/" } else { "dep:" };
+        LAST_PANIC.with(|p| *p.borrow_mut() = format!("{}{}", krate, short));
+        if std::env::var("SYMPC_PANICS").is_ok() {
+            eprintln!("panic: {}", info);
+        }
+    }));
+}
+pub fn last_panic_file() -> String {
+    LAST_PANIC.with(|p| p.borrow().clone())
 }
 
 fn next_value(default: impl FnOnce(&mut StdRng) -> Fr) -> Fr {
@@ -226,7 +244,8 @@ pub fn run_once(f: &dyn Fn() -> Verdict, input: Vec<Fr>, seed: u64) -> RunOut {
             } else {
                 "panic".to_string()
             };
-            Verdict::Violation { key: "uncaught-panic".into(), msg }
+            let short: String = msg.chars().take(80).collect();
+            Verdict::Violation { key: format!("panic@{}: {}", last_panic_file(), short), msg }
         }
     };
     if let Some(w) = DISCARD.with(|d| d.borrow_mut().take()) {
@@ -253,11 +272,12 @@ pub fn run_once(f: &dyn Fn() -> Verdict, input: Vec<Fr>, seed: u64) -> RunOut {
 }
 
 struct Solvers {
-    cvc5_fast: Session,
-    cvc5_mid: Session,
-    cvc5: Session,
-    z3: Session,
-    z3_fast: Session,
+    cvc5_x: Session,
+    cvc5_a: Session,
+    z3_x: Session,
+    cvc5_c: Session,
+    z3_check: Session,
+    tl_ms: u64,
 }
 
 enum Dec {
@@ -290,51 +310,85 @@ fn model_to_input(q: &Query, vals: &[(u32, num_bigint::BigUint)], base: &[Fr]) -
     ni
 }
 
+/// Portfolio: exact query on cvc5 and z3 and the abstraction on cvc5, concurrently; first conclusive
+/// answer wins, the others are aborted. Then tier C.
 fn decide(s: &mut Solvers, conds: &[(Cond, bool)], flipped: Cond, base: &[Fr], rep: &mut Report) -> Dec {
-    // tier E+X on cvc5 (fast limit)
     let qx = ARENA.with(|a| emit_query(&a.borrow(), conds, None, false, true));
     let qx = match qx {
         Some(q) => q,
         None => return Dec::Unknown("order comparison on a fraction".into()),
     };
     rep.axioms += qx.axioms;
-    match s.cvc5_fast.ask(&qx.text, &qx.vars) {
-        Ans::Unsat => return Dec::Unsat("X-cvc5"),
-        Ans::Sat(vals) => return Dec::Sat(model_to_input(&qx, &vals, base), "X-cvc5"),
-        Ans::Unknown(_) => {}
+    // quick attempt on cvc5 alone: most queries are answered within milliseconds
+    s.cvc5_x.send(&qx.text, &qx.vars);
+    match s.cvc5_x.poll(std::time::Duration::from_millis(150)) {
+        Some(Ans::Unsat) => return Dec::Unsat("X-cvc5"),
+        Some(Ans::Sat(vals)) => return Dec::Sat(model_to_input(&qx, &vals, base), "X-cvc5"),
+        _ => {}
     }
-    // tier A (abstraction) on cvc5: only unsat is trusted
-    if let Some(qa) = ARENA.with(|a| emit_query(&a.borrow(), conds, None, true, false)) {
-        if let Ans::Unsat = s.cvc5_mid.ask(&qa.text, &[]) {
-            return Dec::Unsat("A-cvc5");
+    let qa = ARENA.with(|a| emit_query(&a.borrow(), conds, None, true, false));
+    let mut a_live = false;
+    if let Some(qa) = &qa {
+        a_live = s.cvc5_a.send(&qa.text, &[]);
+    }
+    let mut z_live = s.z3_x.send(&qx.text, &qx.vars);
+    let mut x_live = true;
+    let t0 = Instant::now();
+    let deadline = std::time::Duration::from_millis(s.tl_ms);
+    let step = std::time::Duration::from_millis(15);
+    let mut result: Option<Dec> = None;
+    while t0.elapsed() < deadline && (x_live || a_live || z_live) {
+        if x_live {
+            if let Some(a) = s.cvc5_x.poll(step) {
+                x_live = false;
+                match a {
+                    Ans::Unsat => result = Some(Dec::Unsat("X-cvc5")),
+                    Ans::Sat(vals) => result = Some(Dec::Sat(model_to_input(&qx, &vals, base), "X-cvc5")),
+                    Ans::Unknown(_) => {}
+                }
+            }
+        }
+        if result.is_none() && a_live {
+            if let Some(a) = s.cvc5_a.poll(step) {
+                a_live = false;
+                if let Ans::Unsat = a {
+                    result = Some(Dec::Unsat("A-cvc5"));
+                }
+            }
+        }
+        if result.is_none() && z_live {
+            if let Some(a) = s.z3_x.poll(step) {
+                z_live = false;
+                match a {
+                    Ans::Unsat => result = Some(Dec::Unsat("X-z3")),
+                    Ans::Sat(vals) => result = Some(Dec::Sat(model_to_input(&qx, &vals, base), "X-z3")),
+                    Ans::Unknown(_) => {}
+                }
+            }
+        }
+        if result.is_some() {
+            break;
         }
     }
-    match s.cvc5_mid.ask(&qx.text, &qx.vars) {
-        Ans::Unsat => return Dec::Unsat("X-cvc5"),
-        Ans::Sat(vals) => return Dec::Sat(model_to_input(&qx, &vals, base), "X-cvc5"),
-        Ans::Unknown(_) => {}
-    }
-    // tier X on z3 (Groebner)
-    match s.z3.ask(&qx.text, &qx.vars) {
-        Ans::Unsat => return Dec::Unsat("X-z3"),
-        Ans::Sat(vals) => return Dec::Sat(model_to_input(&qx, &vals, base), "X-z3"),
-        Ans::Unknown(_) => {}
+    s.cvc5_x.abort();
+    s.cvc5_a.abort();
+    s.z3_x.abort();
+    if let Some(r) = result {
+        return r;
     }
     // tier C: concretise all but one variable of the flipped atom
     let sup = ARENA.with(|a| support(&a.borrow(), flipped));
-    for fv in sup.iter().take(8) {
+    for fv in sup.iter().rev().take(6) {
         if let Some(qc) = ARENA.with(|a| emit_query(&a.borrow(), conds, Some(*fv), false, false)) {
-            if let Ans::Sat(vals) = s.cvc5_mid.ask(&qc.text, &qc.vars) {
-                return Dec::Sat(model_to_input(&qc, &vals, base), "C-cvc5");
+            s.cvc5_c.send(&qc.text, &qc.vars);
+            match s.cvc5_c.poll(std::time::Duration::from_millis(s.tl_ms.min(600))) {
+                Some(Ans::Sat(vals)) => return Dec::Sat(model_to_input(&qc, &vals, base), "C-cvc5"),
+                Some(_) => {}
+                None => s.cvc5_c.abort(),
             }
         }
     }
-    // last resort: exact query with the long limit
-    match s.cvc5.ask(&qx.text, &qx.vars) {
-        Ans::Unsat => return Dec::Unsat("X-cvc5-long"),
-        Ans::Sat(vals) => return Dec::Sat(model_to_input(&qx, &vals, base), "X-cvc5-long"),
-        Ans::Unknown(w) => Dec::Unknown(w),
-    }
+    Dec::Unknown("no tier answered within the limits".into())
 }
 
 fn describe(names: &[String], vals: &[Fr], max: usize) -> Value {
@@ -356,29 +410,31 @@ pub fn explore(f: &dyn Fn() -> Verdict, seed: u64, lim: &Limits) -> Report {
     let t_start = Instant::now();
     let mut rep = Report::default();
     let mut solvers = Solvers {
-        cvc5_fast: Session::new(Which::Cvc5, 300),
-        cvc5_mid: Session::new(Which::Cvc5, lim.tl_ms),
-        z3: Session::new(Which::Z3, lim.tl_ms * 2),
-        z3_fast: Session::new(Which::Z3, 400),
-        cvc5: Session::new(Which::Cvc5, lim.tl_ms * 5),
+        cvc5_x: Session::new(Which::Cvc5, lim.tl_ms + 500),
+        cvc5_a: Session::new(Which::Cvc5, lim.tl_ms + 500),
+        z3_x: Session::new(Which::Z3, lim.tl_ms + 500),
+        cvc5_c: Session::new(Which::Cvc5, 1000),
+        z3_check: Session::new(Which::Z3, 400),
+        tl_ms: lim.tl_ms,
     };
     // work item: (input, bound, expected prefix hash)
     let mut work: VecDeque<(Vec<Fr>, usize, Option<Vec<(Cond, bool)>>)> = VecDeque::new();
     work.push_back((vec![], 0, None));
+    let mut work_low: VecDeque<(Vec<Fr>, usize, Option<Vec<(Cond, bool)>>)> = VecDeque::new();
     let mut seen_paths: HashSet<u64> = HashSet::new();
     let mut tried: HashSet<u64> = HashSet::new();
     let mut unsat_count = 0usize;
     rep.complete = true;
-    while let Some((input, bound, expect)) = work.pop_front() {
+    while let Some((input, bound, expect)) = work.pop_front().or_else(|| work_low.pop_front()) {
         if rep.runs >= lim.max_runs || t_start.elapsed().as_secs_f64() > lim.wall_s {
             rep.complete = false;
-            rep.frontier = work.len() + 1;
+            rep.frontier = work.len() + work_low.len() + 1;
             rep.stopped = if rep.runs >= lim.max_runs { "max_runs".into() } else { "wall budget".into() };
             break;
         }
         if rep.violations.len() >= lim.max_violations {
             rep.complete = false;
-            rep.frontier = work.len() + 1;
+            rep.frontier = work.len() + work_low.len() + 1;
             rep.stopped = "max_violations".into();
             break;
         }
@@ -391,6 +447,11 @@ pub fn explore(f: &dyn Fn() -> Verdict, seed: u64, lim: &Limits) -> Report {
             let ok = sig.len() >= exp.len() && sig[..exp.len()] == exp[..];
             if !ok {
                 rep.divergent += 1;
+                if std::env::var("SYMPC_DEBUG").is_ok() {
+                    let k = (0..exp.len()).find(|k| *k >= sig.len() || sig[*k] != exp[*k]).unwrap();
+                    eprintln!("DIVERGE at {} of {}: expected {:?} got {:?}", k, exp.len(), exp[k], sig.get(k));
+                    ARENA.with(|a| { let a = a.borrow(); if let Some((c, _)) = sig.get(k) { if let Cond::Eq(x, y) = c { eprintln!("  got nodes {:?} {:?}", a.nodes[*x as usize], a.nodes[*y as usize]); } } });
+                }
             }
         }
         if !seen_paths.insert(hash_conds(&sig)) {
@@ -434,7 +495,7 @@ pub fn explore(f: &dyn Fn() -> Verdict, seed: u64, lim: &Limits) -> Report {
         }
         // a discarded run's path is still explored (its alternatives may satisfy the assumption)
         for i in bound..out.path.len() {
-            if out.path[i].kind != Kind::Branch {
+            if out.path[i].kind != Kind::Branch && out.path[i].kind != Kind::RoArg {
                 continue;
             }
             if t_start.elapsed().as_secs_f64() > lim.wall_s {
@@ -460,7 +521,7 @@ pub fn explore(f: &dyn Fn() -> Verdict, seed: u64, lim: &Limits) -> Report {
                         // solver diff: ask the other solver the same exact query
                         if let Some(q) = ARENA.with(|a| emit_query(&a.borrow(), &conds, None, false, true)) {
                             rep.xchecks += 1;
-                            let other = if tier.contains("z3") { &mut solvers.cvc5_fast } else { &mut solvers.z3_fast };
+                            let other = if tier.contains("z3") { &mut solvers.cvc5_c } else { &mut solvers.z3_check };
                             if let Ans::Sat(vals) = other.ask(&q.text, &q.vars) {
                                 // only a model that really satisfies the conditions is a disagreement
                                 let ni = model_to_input(&q, &vals, &out.assignment);
@@ -484,7 +545,11 @@ pub fn explore(f: &dyn Fn() -> Verdict, seed: u64, lim: &Limits) -> Report {
                     if ok {
                         rep.sat += 1;
                         *rep.tier.entry(format!("sat:{}", tier)).or_insert(0) += 1;
-                        work.push_back((ni, i + 1, Some(conds.clone())));
+                        if out.path[i].kind == Kind::RoArg {
+                            work_low.push_back((ni, i + 1, Some(conds.clone())));
+                        } else {
+                            work.push_back((ni, i + 1, Some(conds.clone())));
+                        }
                     } else {
                         rep.unknown += 1;
                         *rep.tier.entry("model-rejected".into()).or_insert(0) += 1;
